@@ -116,20 +116,22 @@ def impl_parse(text, **opts):
     """run rrulestr with the rrule / rruleset constructors recorded; canonical dump in the model's format"""
     import dateutil.rrule as R
     calls = []
-    orig_rrule, orig_set = R.rrule, R.rruleset
-    class RR(orig_rrule):
-        def __init__(self, *a, **kw):
-            calls.append(("rrule", dict(kw)))
-            super(RR, self).__init__(*a, **kw)
-    class RS(orig_set):
-        def __init__(self, *a, **kw):
-            calls.append(("set",))
-            super(RS, self).__init__(*a, **kw)
-        def rrule(self, r): calls.append(("add_rrule",)); super(RS, self).rrule(r)
-        def exrule(self, r): calls.append(("add_exrule",)); super(RS, self).exrule(r)
-        def rdate(self, d): calls.append(("rdate", d)); super(RS, self).rdate(d)
-        def exdate(self, d): calls.append(("exdate", d)); super(RS, self).exdate(d)
-    R.rrule, R.rruleset = RR, RS
+    # the classes refer to themselves by their global names (super(rrule, self)), so the names cannot be rebound:
+    # wrap the methods instead
+    saved = {}
+    def wrap(cls, name, rec):
+        orig = getattr(cls, name)
+        saved[(cls, name)] = orig
+        def f(self, *a, **kw):
+            rec(a, kw)
+            return orig(self, *a, **kw)
+        setattr(cls, name, f)
+    wrap(R.rrule, "__init__", lambda a, kw: calls.append(("rrule", dict(kw, **({"freq": a[0]} if a else {})))))
+    wrap(R.rruleset, "__init__", lambda a, kw: calls.append(("set",)))
+    wrap(R.rruleset, "rrule", lambda a, kw: calls.append(("add_rrule",)))
+    wrap(R.rruleset, "exrule", lambda a, kw: calls.append(("add_exrule",)))
+    wrap(R.rruleset, "rdate", lambda a, kw: calls.append(("rdate", a[0])))
+    wrap(R.rruleset, "exdate", lambda a, kw: calls.append(("exdate", a[0])))
     try:
         with warnings.catch_warnings():
             warnings.simplefilter("ignore")
@@ -140,7 +142,8 @@ def impl_parse(text, **opts):
         k = exc_kind(ex)
         return "err " + ("ValueError" if k == "ParserError" else k), None
     finally:
-        R.rrule, R.rruleset = orig_rrule, orig_set
+        for (cls, name), orig in saved.items():
+            setattr(cls, name, orig)
     if calls and calls[0] == ("set",):
         rr, ex, rd, exd = [], [], [], []
         pending = None
